@@ -119,6 +119,7 @@ type Exec struct {
 	race       *raceState
 	ideal      *idealState
 	ghost      map[string]Value
+	concrete   map[int]int64
 	harness    string
 	endReason  string
 	lastModel  map[string]interface{}
@@ -258,13 +259,87 @@ func (ex *Exec) concretize(t *Term, what string) int64 {
 }
 
 // solve runs a query; with wantModel it also extracts the named inputs.
+//
+// Constraint independence: the path condition is kept satisfiable at all times
+// (every conjunct is added only after a feasibility query, vAssume included),
+// so conjuncts that share no symbol - transitively - with the last
+// `extra` terms of cons cannot influence the verdict and are left out. When a
+// model is wanted and the sliced query is Sat, the full query is asked so that
+// the model covers every input.
 func (ex *Exec) solve(cons []*Term, wantModel bool) (Result, map[string]interface{}) {
 	ex.Queries++
+	npc := len(ex.pc)
+	if len(cons) >= npc && npc > 0 && sameHead(cons, ex.pc) && len(cons) > npc {
+		sl := ex.slice(cons[:npc], cons[npc:])
+		ex.S.NeedModel = wantModel && len(sl) == len(cons)
+		res := ex.S.Check(ex.C, sl)
+		ex.S.NeedModel = false
+		if res != Sat || !wantModel {
+			return res, nil
+		}
+		if len(sl) == len(cons) {
+			return res, ex.model()
+		}
+		ex.Queries++
+	}
+	ex.S.NeedModel = wantModel
 	res := ex.S.Check(ex.C, cons)
+	ex.S.NeedModel = false
 	if res != Sat || !wantModel {
 		return res, nil
 	}
 	return res, ex.model()
+}
+
+func sameHead(cons, pc []*Term) bool {
+	for i := range pc {
+		if cons[i] != pc[i] {
+			return false
+		}
+	}
+	return true
+}
+
+// slice returns extra plus the conjuncts of pc connected to extra through
+// shared symbols.
+func (ex *Exec) slice(pc []*Term, extra []*Term) []*Term {
+	syms := map[int]bool{}
+	for _, e := range extra {
+		for _, s := range ex.C.SymbolsOf(e) {
+			syms[s] = true
+		}
+	}
+	used := make([]bool, len(pc))
+	for changed := true; changed; {
+		changed = false
+		for i, t := range pc {
+			if used[i] {
+				continue
+			}
+			ss := ex.C.SymbolsOf(t)
+			hit := false
+			for _, s := range ss {
+				if syms[s] {
+					hit = true
+					break
+				}
+			}
+			if hit {
+				used[i] = true
+				changed = true
+				for _, s := range ss {
+					syms[s] = true
+				}
+			}
+		}
+	}
+	var out []*Term
+	for i, t := range pc {
+		if used[i] {
+			out = append(out, t)
+		}
+	}
+	return append(out, extra...)
 }
 
 // model reads the values of all named inputs from the solver's current model.
@@ -434,6 +509,7 @@ func RunPath(p *Program, fn *ssa.Function, prefix []int, s *Solver, opt Options)
 		Lemmas:    map[string]int{},
 		FnSeen:    map[string]int{},
 		ghost:     map[string]Value{},
+		concrete:  map[int]int64{},
 		harness:   fn.Name(),
 		TraceW:    opt.Trace,
 	}
@@ -563,6 +639,7 @@ func Explore(p *Program, fn *ssa.Function, opt Options) *HarnessResult {
 	start := time.Now()
 	hr := &HarnessResult{Name: fn.Name(), Reached: map[string]bool{}, Lemmas: map[string]int{}, FnSeen: map[string]int{}, Ends: map[string]int{}}
 	var mu sync.Mutex
+	cache := &sync.Map{}
 	work := [][]int{nil}
 	active := 0
 	cond := sync.NewCond(&mu)
@@ -577,6 +654,9 @@ func Explore(p *Program, fn *ssa.Function, opt Options) *HarnessResult {
 		go func() {
 			defer wg.Done()
 			s, err := NewSolver(opt.SolverName, opt.TimeoutMs)
+			if err == nil {
+				s.Cache = cache
+			}
 			if err != nil {
 				mu.Lock()
 				hr.Unsupported = append(hr.Unsupported, "cannot start solver: "+err.Error())
